@@ -8,6 +8,8 @@ import (
 	"strconv"
 	"strings"
 
+	tmtypes "github.com/tendermint/tendermint/types"
+
 	"github.com/Oneledger/protocol/data/balance"
 	"github.com/Oneledger/protocol/data/rewards"
 	"github.com/Oneledger/protocol/storage"
@@ -84,6 +86,8 @@ type runOut struct {
 	err    string
 	dead   bool
 	halted bool
+	// inadmissible: the history asks for a vote pattern Tendermint could not commit
+	inadmissible bool
 }
 
 // run executes one history (events evs of configuration s, then ext default blocks). restarts=false
@@ -147,6 +151,17 @@ func run(s *wspec, evs []event, ext int, restarts, oracle bool, floors []int64, 
 			spec.Txs = []*harness.TxSpec{buildTx(w, e.Op, i, floorM)}
 			if n, ok := withdrawAmountOLT(e.Op, floorM); ok {
 				wAmt = olt(n)
+			}
+		}
+		if len(e.Absent) > 0 {
+			ab := map[string]bool{}
+			for _, vi := range e.Absent {
+				ab[string(w.Vals[vi].Val.TM.PubKey().Address())] = true
+			}
+			if !x.C.CanSkip(ab) {
+				// more than a third of the power would be missing: Tendermint cannot commit such a block
+				out.inadmissible = true
+				return out
 			}
 		}
 		req := x.Prepare(spec)
@@ -240,11 +255,22 @@ func stateKey(s *wspec, evs []event, lastRestart int, x *harness.Run, cur *view)
 		}
 		rs = fmt.Sprint(ago)
 	}
-	return fmt.Sprintf("%s|h%d|t%d|%s|d%d|b%d|r%s|%s", s.Name, len(evs), secs(x.C.Time.Sub(x.W.GenesisTime)), strings.Join(steps, ","), dev, bigN, rs, cur.digest)
+	// the Tendermint validator sets of the next blocks (updates take effect two blocks later)
+	vs := ""
+	if s.Unstake {
+		for _, set := range []*tmtypes.ValidatorSet{x.C.LastVals, x.C.Vals, x.C.NextVals} {
+			for _, v := range set.Validators {
+				vs += fmt.Sprintf("%x:%d,", v.Address[:3], v.VotingPower)
+			}
+			vs += ";"
+		}
+	}
+	return fmt.Sprintf("%s|h%d|t%d|%s|d%d|b%d|r%s|%s%s", s.Name, len(evs), secs(x.C.Time.Sub(x.W.GenesisTime)), strings.Join(steps, ","), dev, bigN, rs, vs, cur.digest)
 }
 
-// resolve maps a history (configuration index, then event indexes) to the configuration and events;
-// ok=false: the history is outside the bounds (padding job, not executed).
+// resolve maps a history to the configuration and events; ok=false: the history is outside the bounds
+// (padding job, not executed). Encoding: h[0] = configuration index; every further element is
+// len(worlds()) + event index (so that one index names one thing in samples and replays).
 func resolve(h []int, p params) (s *wspec, evs []event, ok bool) {
 	ws := worlds()
 	if len(h) == 0 || h[0] < 0 || h[0] >= len(ws) {
@@ -256,8 +282,9 @@ func resolve(h []int, p params) (s *wspec, evs []event, ok bool) {
 	}
 	alpha := s.events()
 	dev, bigN := 0, 0
-	for i, ei := range h[1:] {
-		if ei < 0 || ei >= len(alpha) {
+	for i, x := range h[1:] {
+		ei := x - len(ws)
+		if ei < 0 || ei >= len(alpha) || alpha[ei].NA {
 			return s, nil, false
 		}
 		e := alpha[ei]
@@ -280,19 +307,23 @@ func resolve(h []int, p params) (s *wspec, evs []event, ok bool) {
 	return s, evs, true
 }
 
-func describe(h []int) []string {
+// eventName names an element of a history.
+func eventName(i int) string {
 	ws := worlds()
-	if len(h) == 0 || h[0] < 0 || h[0] >= len(ws) {
-		return []string{fmt.Sprint(h)}
+	if i >= 0 && i < len(ws) {
+		return "config:" + ws[i].Name
 	}
-	out := []string{"config:" + ws[h[0]].Name}
-	alpha := ws[h[0]].events()
-	for _, ei := range h[1:] {
-		if ei >= 0 && ei < len(alpha) {
-			out = append(out, alpha[ei].Name)
-		} else {
-			out = append(out, fmt.Sprintf("?%d", ei))
-		}
+	alpha := ws[0].events()
+	if j := i - len(ws); j >= 0 && j < len(alpha) {
+		return alpha[j].Name
+	}
+	return fmt.Sprintf("?%d", i)
+}
+
+func describe(h []int) []string {
+	var out []string
+	for _, x := range h {
+		out = append(out, eventName(x))
 	}
 	return out
 }
@@ -317,6 +348,9 @@ func execHist(h []int, tier string, log *os.File) explore.BFSOut {
 		hasRestart = hasRestart || e.Restart
 	}
 	main := run(s, evs, ext, true, true, nil, log)
+	if main.inadmissible {
+		return explore.BFSOut{NoExpand: true, Info: map[string]int64{"padding_jobs": 1, "vote_patterns_not_committable": 1}}
+	}
 	if main.err != "" && !main.halted {
 		return explore.BFSOut{Err: main.err}
 	}
